@@ -28,7 +28,8 @@ def gates(tier):
         "min_decided": {"m(xs)": 20000 * k, "m.epsremove(xs)": 20000 * k, "m.total_weight()": 800 * k},
         "shapes": {c: 5 * k for c in ["eps_arc", "eps_cycle", "cyclic", "acyclic", "multi_initial", "multi_final", "parallel_arcs",
                                       "unreachable_state", "dead_state", "empty_language", "sr:Q", "sr:Log", "sr:Boolean",
-                                      "sr:MaxTimes", "sr:Real", "sr:Float", "oracle-crosscheck"]},
+                                      "sr:MaxTimes", "sr:Real", "sr:Float", "oracle-crosscheck", "zero_weight_arc", "tiny_weight", "input:iterator", "input:list",
+                                      "order:total-first", "order:epsremove-first", "order:calls-first"]},
         "min_hashseeds": 2,
     }
 
@@ -40,7 +41,7 @@ def gen_case(rng, spec):
     maxlen = 4 if spec.get("tier") == "quick" else 5
     if len(m["alphabet"]) >= 3:
         maxlen -= 1
-    return {"m": m, "R": rng.choice(SEMIRINGS), "maxlen": maxlen}
+    return {"m": m, "R": rng.choice(SEMIRINGS), "maxlen": maxlen, "oseed": rng.randrange(1 << 30)}
 
 
 def run_case(case, ctx):
@@ -80,11 +81,49 @@ def run_case(case, ctx):
             return lib.same(R, have, w, exact=True)
         return close2(lib.have_value(R, have), lib.want_value(R, w), 1e-8, 1e-12)
 
+    import random as _random
+
+    orng = _random.Random(case.get("oseed", 0))
+    order = ["calls", "epsremove", "total"]
+    orng.shuffle(order)  # the three groups share one automaton object (and its cached graphs): any order must work
+    ctx.shape["order:" + order[0] + "-first"] += 1
+    for group in order:
+        if group == "calls":
+            run_calls(ctx, case, A, strings, want, same, R, orng)
+        elif group == "epsremove":
+            run_epsremove(ctx, case, A, strings, want, same, R, exact)
+        else:
+            ok, t = ctx.call("m.total_weight()", case, A.total_weight)
+            if ok:
+                ctx.check("m.total_weight()", same(t, wtot), "total_weight/value", case, {"have": t, "want": lib.want_value(R, wtot), "order": order})
+
+
+def run_calls(ctx, case, A, strings, want, same, R, orng):
+    from rv import lib
+
     for x in strings:
         c2 = dict(case, x=list(x))
         ok, v = ctx.call("m(xs)", c2, A, x)
         if ok:
             ctx.check("m(xs)", same(v, want[x]), "wfsa.__call__/value", c2, {"x": list(x), "have": v, "want": lib.want_value(R, want[x])})
+        if x and orng.random() < 0.15:
+            # other ways of handing the same string in: list, str, one-shot iterator / generator
+            forms = [("list", lambda: list(x)), ("iterator", lambda: iter(x)), ("generator", lambda: (t for t in x))]
+            if all(isinstance(t, str) and len(t) == 1 for t in x):
+                forms.append(("str", lambda: "".join(x)))
+            for form, mk in forms:
+                ctx.shape[f"input:{form}"] += 1
+                ok, v = ctx.call("m(xs)", dict(c2, form=form), A, mk())
+                if ok:
+                    ctx.check("m(xs)", same(v, want[x]), f"wfsa.__call__/value/{form}-input", dict(c2, form=form),
+                              {"x": list(x), "form": form, "have": v, "want": lib.want_value(R, want[x])})
+
+
+def run_epsremove(ctx, case, A, strings, want, same, R, exact):
+    from rv import lib
+    from rv.core import close2
+    from rv.ref import fsaref
+
     ok, E = ctx.call("m.epsremove(xs)", case, lambda: A.epsremove)
     if ok:
         eps_left = [(i, a, j) for i, a, j, w in E.arcs() if a == fsaref.EPS]
@@ -104,9 +143,6 @@ def run_case(case, ctx):
             if ok:
                 ctx.check("m.epsremove(xs)", same(v, want[x]), "epsremove(xs)/value", dict(case, x=list(x)),
                           {"x": list(x), "have": v, "want": lib.want_value(R, want[x])})
-    ok, t = ctx.call("m.total_weight()", case, A.total_weight)
-    if ok:
-        ctx.check("m.total_weight()", same(t, wtot), "total_weight/value", case, {"have": t, "want": lib.want_value(R, wtot)})
 
 
 def run(spec, ctx):
